@@ -108,13 +108,80 @@ pub fn check_relative_bytes(pc: &[Vec<u8>], bc: &[Vec<u8>]) -> CaseResult {
     Ok(())
 }
 
+/// "used to derive stored link targets": what a backend stores as a link's relative target is
+/// relative(abs(target), dir(link)) - for every spelling of the target, also for targets that do not exist, lie
+/// below the link's own path or are the link's own directory. spelling: 0 absolute, 1 the minimal relative form,
+/// 2 a detour: up out of the link's directory and back in through it
+pub fn check_link_derivation(stdfs: bool, link: &str, target: &str, spelling: u8) -> CaseResult {
+    use std::sync::atomic::{AtomicU64, Ordering};
+    static SEQ: AtomicU64 = AtomicU64::new(0);
+    let ldir = parent(link);
+    let want = match sys::relative(target, &ldir) {
+        Ok(w) => w.to_str().unwrap_or("").to_string(),
+        Err(_) => return Ok(()),
+    };
+    let (v, root, cleanup): (Vfs, String, Option<std::path::PathBuf>) = if stdfs {
+        let d = crate::sandbox::root().join(format!("c16l-{}", SEQ.fetch_add(1, Ordering::Relaxed)));
+        let _ = std::fs::create_dir_all(&d);
+        (Vfs::stdfs(), d.to_str().unwrap().to_string(), Some(d))
+    } else {
+        (Vfs::memfs(), String::new(), None)
+    };
+    let on = |p: &str| if p == "/" && !root.is_empty() { root.clone() } else { format!("{}{}", root, p) };
+    let minimal = ref_relative(target, &ldir);
+    let given = match spelling {
+        0 => on(target),
+        1 => if minimal.is_empty() { ".".to_string() } else { minimal.clone() },
+        _ => {
+            if ldir == "/" {
+                on(target)
+            } else {
+                let own = base(&ldir);
+                format!("../{}/{}", own, if minimal.is_empty() { ".".to_string() } else { minimal.clone() })
+            }
+        },
+    };
+    let r = catch(|| -> Result<Option<String>, String> {
+        v.mkdir_p(on(&ldir)).map_err(|e| e.to_string())?;
+        v.symlink(on(link), &given).map_err(|e| e.to_string())?;
+        if stdfs {
+            Ok(std::fs::read_link(on(link)).ok().and_then(|p| p.to_str().map(|s| s.to_string())))
+        } else {
+            Ok(v.readlink(on(link)).ok().and_then(|p| p.to_str().map(|s| s.to_string())))
+        }
+    });
+    if let Some(d) = cleanup {
+        let _ = std::fs::remove_dir_all(d);
+    }
+    let backend = if stdfs { "stdfs" } else { "memfs" };
+    match r {
+        Ok(Ok(Some(got))) => {
+            // "" and "." both name the link's own directory
+            let same = got == want || (matches!(got.as_str(), "" | ".") && matches!(want.as_str(), "" | "."));
+            if !same {
+                return Err(Failure::new(
+                    format!("stored-link-target|not-relative(target,dir(link))|{}|{}", ["absolute", "relative", "relative-detour"][spelling as usize % 3], backend),
+                    format!("symlink({:?}, {:?}) stored {:?}; relative({:?}, {:?}) = {:?}", link, given, got, target, ldir, want),
+                ));
+            }
+            Ok(())
+        },
+        Ok(Ok(None)) => Err(Failure::new(format!("stored-link-target|unreadable|{}", backend), format!("symlink({:?}, {:?})", link, given))),
+        Ok(Err(e)) => {
+            ctx().inconclusive(&format!("C16 link derivation setup failed on {}: {}", backend, e));
+            Ok(())
+        },
+        Err(p) => Err(Failure::new(format!("stored-link-target|panic|{}|{}", panic_site(&p), backend), format!("symlink({:?}, {:?}) panicked: {}", link, given, p))),
+    }
+}
+
 fn deep_path() -> impl Strategy<Value = String> {
     prop::collection::vec(prop::sample::select(&["a", "b", "ab", "a.b", "é", "éé", "日本", "d e", "..z", "😀", "~", "n~", "$HOME", "${HOME}", "$", "A", "B", "Ab"][..]), 0..=12)
         .prop_map(|v| if v.is_empty() { "/".to_string() } else { format!("/{}", v.join("/")) })
 }
 
 pub fn run(c: &Ctx) {
-    c.set_rule("exhaustive: all ordered pairs of the 121 clean absolute paths with <=4 components over {a,ab,b} (one name is a string prefix of another) and of the 40 with <=3 components over {~,$HOME,n~} (names are opaque to relative()), of the 40 over {a,A,b} (case matters), of the 85 over {a, 0xFF, 0xE9 'a', b} (names that are not valid UTF-8, compared on bytes) and of the 15 over {a,b} below a real tmpfs directory where a is a symlink to b/b (the function is lexical: what exists on disk is irrelevant); then seeded random pairs up to depth 12 over 18 names (multi-byte, spaces, dots, '~' and '$') with a shared random prefix in half of them. Oracle: result relative, (../)*normal*, clean(base/result)==path, #'..' == |base|-|common prefix|. Non-trivial = path!=base and the common prefix is shorter than both (needs '..' and normal parts); distinct by pair.");
+    c.set_rule("exhaustive: all ordered pairs of the 121 clean absolute paths with <=4 components over {a,ab,b} (one name is a string prefix of another) and of the 40 with <=3 components over {~,$HOME,n~} (names are opaque to relative()), of the 40 over {a,A,b} (case matters), of the 85 over {a, 0xFF, 0xE9 'a', b} (names that are not valid UTF-8, compared on bytes) and of the 15 over {a,b} below a real tmpfs directory where a is a symlink to b/b (the function is lexical: what exists on disk is irrelevant); then seeded random pairs up to depth 12 over 18 names (multi-byte, spaces, dots, '~' and '$') with a shared random prefix in half of them. Stored link targets: every (link, target) pair over {a,ab} to depth 3 x {absolute, minimal relative, detour} spelling on Memfs and a third on Stdfs must store relative(abs(target), dir(link)). Oracle: result relative, (../)*normal*, clean(base/result)==path, #'..' == |base|-|common prefix|. Non-trivial = path!=base and the common prefix is shorter than both (needs '..' and normal parts); distinct by pair.");
     let paths = all_paths(&["a", "ab", "b"], 4);
     let n = paths.len() as u64;
     par_for(n * n, 512, |i| {
@@ -185,6 +252,36 @@ pub fn run(c: &Ctx) {
         }
         c.judge("relative-bytes", &json!({"path": p, "base": b}), check_relative_bytes(p, b));
     });
+    // stored link targets are derived with relative(): every (link, target) pair over {a,ab} to depth 3 (target
+    // also the root, below the link's own path, or the link's directory), three spellings, Memfs and a third on Stdfs
+    {
+        let pos = all_paths(&["a", "ab"], 3);
+        let mut cases: Vec<(bool, String, String, u8)> = vec![];
+        for l in pos.iter().filter(|p| p.as_str() != "/") {
+            for t in &pos {
+                if t == l {
+                    continue;
+                }
+                for sp in 0..3u8 {
+                    cases.push((false, l.clone(), t.clone(), sp));
+                    if sampled(c.seed, 1601, cases.len() as u64, 1, 3) {
+                        cases.push((true, l.clone(), t.clone(), sp));
+                    }
+                }
+            }
+        }
+        par_for(cases.len() as u64, 16, |i| {
+            let (stdfs, l, t, sp) = &cases[i as usize];
+            mark("link-derivation", &serde_json::to_string(&json!([stdfs, l, t, sp])).unwrap());
+            c.eval(1);
+            c.class(if *stdfs { "link-derivation:stdfs" } else { "link-derivation:memfs" });
+            if is_under(t, l) || *t == parent(l) || *sp == 2 {
+                c.nontrivial(fp(&("link-derivation", stdfs, l, t, sp)));
+            }
+            c.judge("link-derivation", &json!([stdfs, l, t, sp]), check_link_derivation(*stdfs, l, t, *sp));
+        });
+        crate::sandbox::cleanup();
+    }
     // purely lexical: the answer does not depend on what exists on disk. Paths below a real directory in
     // which `a` is a symlink to the directory b/b and b/b/a exists
     let sb = crate::sandbox::dir("c16");
@@ -241,6 +338,12 @@ pub fn run(c: &Ctx) {
 
 pub fn replay(kind: &str, case: &Value) -> Option<CaseResult> {
     match kind {
+        "link-derivation" => {
+            let a = case.as_array()?;
+            let r = check_link_derivation(a[0].as_bool()?, a[1].as_str()?, a[2].as_str()?, a[3].as_u64()? as u8);
+            crate::sandbox::cleanup();
+            Some(r)
+        },
         "relative-bytes" => {
             let p: Vec<Vec<u8>> = serde_json::from_value(case["path"].clone()).ok()?;
             let b: Vec<Vec<u8>> = serde_json::from_value(case["base"].clone()).ok()?;
